@@ -4,18 +4,60 @@ Local Open Scope list_scope.
 
 Ltac inl := simpl; repeat (first [ left; reflexivity | right ]); fail.
 
-Lemma reach_spec : forall a a1, In a1 (reach a) <-> (fst a = true -> fst a1 = true).
+Lemma gs_spec : forall g g', In g' (gs g) <-> (g = true -> g' = true).
+Proof. intros [] []; simpl; split; intros H; try (intuition congruence); try (clear H; inl). Qed.
+
+Lemma reach_spec : forall a a1, In a1 (reach a) <-> (ag a = true -> ag a1 = true).
 Proof.
-  intros [g c] [g1 c1]; unfold reach; simpl; destruct g, g1, c1; simpl; split; intros H;
-    try (intuition congruence); try (clear H; inl).
+  intros [[g c] o] [[g1 c1] o1]; unfold reach, ag; destruct g, g1, c1, o1; simpl; split; intros H;
+    try reflexivity; try (clear H; inl); try (intuition congruence).
 Qed.
+
+Lemma acc_gen_in : forall fb sigs k a g' o' sg,
+  In g' (gs (ag a)) -> In o' (gs (ao a)) ->
+  (failed fb g' o' = true -> sg = ARaise (vx k)) -> (failed fb g' o' = false -> In sg sigs) ->
+  In (sg, (g', ac a, o')) (acc_gen fb sigs k a).
+Proof.
+  intros fb sigs k a g' o' sg Hg Ho Hf Hn. unfold acc_gen.
+  apply in_flat_map. exists g'. split; auto. apply in_flat_map. exists o'. split; auto.
+  apply in_map_iff. exists sg. split; auto.
+  destruct (failed fb g' o'); [left; symmetry; auto | auto].
+Qed.
+
+(* what a base answer can be, given the class of the access *)
+Lemma class_sig : forall o r, ok_class o r = true ->
+  match r with Ok _ => True | Err e => In (ARaise (xc_of e)) (live_sigs o) end.
+Proof. intros o [d|e] H; auto. destruct o, e; simpl in H; try discriminate; inl. Qed.
+
+Lemma in_normals : forall (r : ares) a, In (ANormal, a) r -> In a (normals r).
+Proof.
+  intros r a H. unfold normals, dds. apply nodup_In. apply in_flat_map. exists (ANormal, a). split; auto. simpl; auto.
+Qed.
+Lemma in_raised : forall (r : ares) x a, In (ARaise x, a) r -> In a (raised x r).
+Proof.
+  intros r x a H. unfold raised, dds. apply nodup_In. apply in_flat_map. exists (ARaise x, a). split; auto.
+  simpl. destruct (xc_eq_dec x x); [simpl; auto | congruence].
+Qed.
+Lemma all_who_complete : forall x : who, In x all_who.
+Proof. destruct x; inl. Qed.
+Lemma all_xc_complete : forall x : xc, In x all_xc.
+Proof.
+  intros x. unfold all_xc. destruct x; try inl.
+  - apply in_or_app. right. apply in_or_app. left. apply in_map. apply all_who_complete.
+  - apply in_or_app. right. apply in_or_app. right. apply in_or_app. left. apply in_map. apply all_who_complete.
+  - apply in_or_app. right. apply in_or_app. right. apply in_or_app. right. apply in_map. apply all_who_complete.
+Qed.
+Lemma in_reachS : forall A a a1, In a A -> In a1 (reach a) -> In a1 (reachS A).
+Proof. intros. unfold reachS, dds. apply nodup_In. apply in_flat_map. exists a. auto. Qed.
+Lemma in_tag : forall sg A a, In a A -> In (sg, a) (tag sg A).
+Proof. intros. unfold tag. apply in_map_iff. exists a. auto. Qed.
 
 Section Sound.
 Variable w : world.
 Variable opt : label -> oclass.
 Hypothesis Hb : base_ok opt w.
 
-Definition alpha (s : st) : astate := (gone w s, s_cache s).
+Definition alpha (s : st) : astate := (gone w s, s_cache s, ogone w s).
 Definition abs_sig (sg : sig) : asig :=
   match sg with SNormal => ANormal | SReturn => AReturn | SRaise x => ARaise x end.
 
@@ -26,6 +68,35 @@ Proof.
   intros body Hbody. induction ns as [|n r IH]; intros s sg s' H; simpl in H.
   - inversion H; subst; auto.
   - destruct (body (set_cur s n)) as [sg1 s1] eqn:E. apply Hbody in E. simpl in E.
+    destruct sg1.
+    + apply IH in H. lia.
+    + inversion H; subst; auto.
+    + inversion H; subst; auto.
+Qed.
+
+Lemma visit_idx_le : forall body push,
+  (forall s sg s', body s = (sg, s') -> s_idx s <= s_idx s')%nat ->
+  forall ks stack s sg s' st', visit body push ks stack s = (sg, s', st') -> (s_idx s <= s_idx s')%nat.
+Proof.
+  intros body push Hbody. induction ks as [|k r IH]; intros stack s sg s' st' H; simpl in H.
+  - inversion H; subst; auto.
+  - destruct (body (set_cur s k)) as [sg1 s1] eqn:E. apply Hbody in E. simpl in E.
+    destruct sg1.
+    + apply IH in H. lia.
+    + inversion H; subst; auto.
+    + inversion H; subst; auto.
+Qed.
+
+Lemma walk_idx_le : forall body push kids,
+  (forall s sg s', body s = (sg, s') -> s_idx s <= s_idx s')%nat ->
+  forall fuel stack seen s sg s', walk body push kids fuel stack seen s = (sg, s') -> (s_idx s <= s_idx s')%nat.
+Proof.
+  intros body push kids Hbody. induction fuel as [|f IH]; intros stack seen s sg s' H; simpl in H.
+  - inversion H; subst; auto.
+  - destruct stack as [|pid rest]; [inversion H; subst; auto|].
+    destruct (existsb (String.eqb pid) seen); [eapply IH; eauto|].
+    destruct (visit body push (kids pid) rest s) as [[sg1 s1] st1] eqn:E.
+    apply (visit_idx_le body push Hbody) in E.
     destruct sg1.
     + apply IH in H. lia.
     + inversion H; subst; auto.
@@ -57,8 +128,11 @@ Proof.
     + eauto.
   - inversion H; subst; simpl; auto.
   - inversion H; subst; simpl; auto.
-  - inversion H; subst. destruct (existsb (String.eqb (s_cur s)) (w_names w n)); simpl; auto.
   - inversion H; subst; simpl; auto.
+  - inversion H; subst; simpl; auto.
+  - inversion H; subst; simpl; auto.
+  - exact (walk_idx_le (exec w p cx) F_PUSH (kids_of w (s_acc s)) (fun s0 sg0 s0' E => IHp cx s0 sg0 s0' E)
+             (S (List.length (s_acc s))) [w_self w] [] s sg s' H).
 Qed.
 
 Lemma gone_mono : forall s s', (s_idx s <= s_idx s')%nat -> gone w s = true -> gone w s' = true.
@@ -67,188 +141,224 @@ Proof.
   apply Nat.ltb_lt in H. apply Nat.ltb_lt. lia.
 Qed.
 
-Lemma gone_tick : forall s k f c, gone w (tick s k f c) = gone_at w (s_idx s).
-Proof. intros. unfold gone, gone_at. simpl. destruct (w_vanish w); reflexivity. Qed.
-
 Lemma gone_gone_at : forall s, gone w s = true -> gone_at w (s_idx s) = true.
 Proof.
   unfold gone, gone_at; intros s H. destruct (w_vanish w); [|discriminate].
   apply Nat.ltb_lt in H. apply Nat.leb_le. lia.
 Qed.
-
-(* one access *)
-Lemma acc_sound : forall l s sg s',
-  exec w (Acc l) XPy s = (sg, s') ->
-  In (abs_sig sg, alpha s') (an opt (Acc l) XPy (alpha s)).
+Lemma ogone_gonef : forall s, ogone w s = true -> gonef w (s_idx s) (s_cur s) = true.
 Proof.
-  intros l s sg s' H. simpl in H. simpl.
-  assert (G : gone w s = true -> gone_at w (s_idx s) = true) by apply gone_gone_at.
-  assert (A1 : forall d, alpha (set_data (tick s (l_kind l) (l_file l) (s_cur s)) d) = (gone_at w (s_idx s), s_cache s)).
-  { intros. unfold alpha, gone, gone_at. simpl. destruct (w_vanish w); reflexivity. }
-  assert (A2 : alpha (tick s (l_kind l) (l_file l) (s_cur s)) = (gone_at w (s_idx s), s_cache s)).
-  { unfold alpha, gone, gone_at. simpl. destruct (w_vanish w); reflexivity. }
-  pose proof (Hb (gone_at w (s_idx s)) l (s_cur s)) as B.
-  unfold answer in H. change (alpha s) with (gone w s, s_cache s).
-  unfold rwho in *.
-  destruct (l_who l) eqn:Hw.
-  - (* Self *)
-    simpl in H. destruct (gone_at w (s_idx s)) eqn:Ga.
-    + inversion H; subst. rewrite A2. unfold vx. destruct (gone w s); inl.
-    + assert (Gs : gone w s = false) by (destruct (gone w s); auto; specialize (G eq_refl); discriminate).
-      rewrite Gs. destruct (w_deny w (s_idx s)).
-      * inversion H; subst. rewrite A2. inl.
-      * destruct (opt l) eqn:Ho; simpl in B;
-          destruct (w_base w false (l_kind l) Self (l_file l) (s_cur s)) as [d|e];
-          inversion H; subst; [rewrite A1 | rewrite A2 | rewrite A1 | rewrite A2 | rewrite A1 | rewrite A2];
-          try inl; destruct e; try discriminate; inl.
-  - (* Other *)
-    simpl in H.
-    assert (R : forall x, (x = ANormal \/ x = ARaise XPerm \/ (opt l <> Strict /\ x = ARaise XFnf) \/ (opt l <> Strict /\ x = ARaise XEsrch)
-                           \/ (opt l = MayVanishOrInval /\ x = ARaise XOsOther)) ->
-                In (x, (gone_at w (s_idx s), s_cache s)) (acc_other (opt l) (gone w s, s_cache s))).
-    { intros x Hx. unfold acc_other.
-      destruct (opt l) eqn:Hol; destruct (gone w s) eqn:Gs;
-        try rewrite (G eq_refl); destruct (gone_at w (s_idx s));
-        destruct Hx as [-> | [-> | [[Ho ->] | [[Ho ->] | [Ho ->]]]]]; try discriminate; try congruence; inl. }
-    destruct (w_deny w (s_idx s)).
-    + inversion H; subst. rewrite A2. apply R. auto.
-    + destruct (w_base w (gone_at w (s_idx s)) (l_kind l) Other (l_file l) (s_cur s)) as [d|e] eqn:Eb;
-        inversion H; subst; [rewrite A1 | rewrite A2]; apply R; auto.
-      try rewrite Eb in B.
-      destruct e; simpl; auto 6; destruct (opt l) eqn:Ho2; simpl in B; try discriminate;
-        first [ right; right; left; split; [congruence | reflexivity]
-              | right; right; right; left; split; [congruence | reflexivity]
-              | right; right; right; right; split; reflexivity ].
-  - (* Global *)
-    simpl in H.
-    destruct (w_base w (gone_at w (s_idx s)) (l_kind l) Global (l_file l) (s_cur s)) as [d|e] eqn:Eb;
-      [|discriminate].
-    inversion H; subst. rewrite A1. unfold acc_global.
-    destruct (gone w s) eqn:Gs.
-    + rewrite (G eq_refl). inl.
-    + destruct (gone_at w (s_idx s)); inl.
-  - (* Any: the current entry is the object's own pid, or another one *)
-    apply in_or_app.
-    destruct (String.eqb (s_cur s) (w_self w)).
-    + left. simpl in H. destruct (gone_at w (s_idx s)) eqn:Ga.
-      * inversion H; subst. rewrite A2. unfold vx. destruct (gone w s); inl.
-      * assert (Gs : gone w s = false) by (destruct (gone w s); auto; specialize (G eq_refl); discriminate).
-        rewrite Gs. destruct (w_deny w (s_idx s)).
-        -- inversion H; subst. rewrite A2. inl.
-        -- destruct (opt l) eqn:Ho; simpl in B;
-             destruct (w_base w false (l_kind l) Self (l_file l) (s_cur s)) as [d|e];
-             inversion H; subst; [rewrite A1 | rewrite A2 | rewrite A1 | rewrite A2 | rewrite A1 | rewrite A2];
-             try inl; destruct e; try discriminate; inl.
-    + right. simpl in H.
-      assert (R : forall x, (x = ANormal \/ x = ARaise XPerm \/ (opt l <> Strict /\ x = ARaise XFnf) \/ (opt l <> Strict /\ x = ARaise XEsrch)
-                             \/ (opt l = MayVanishOrInval /\ x = ARaise XOsOther)) ->
-                  In (x, (gone_at w (s_idx s), s_cache s)) (acc_other (opt l) (gone w s, s_cache s))).
-      { intros x Hx. unfold acc_other.
-        destruct (opt l) eqn:Hol; destruct (gone w s) eqn:Gs;
-          try rewrite (G eq_refl); destruct (gone_at w (s_idx s));
-          destruct Hx as [-> | [-> | [[Ho ->] | [[Ho ->] | [Ho ->]]]]]; try discriminate; try congruence; inl. }
-      destruct (w_deny w (s_idx s)).
-      * inversion H; subst. rewrite A2. apply R. auto.
-      * destruct (w_base w (gone_at w (s_idx s)) (l_kind l) Other (l_file l) (s_cur s)) as [d|e] eqn:Eb;
-          inversion H; subst; [rewrite A1 | rewrite A2]; apply R; auto.
-        try rewrite Eb in B.
-        destruct e; simpl; auto 6; destruct (opt l) eqn:Ho2; simpl in B; try discriminate;
-          first [ right; right; left; split; [congruence | reflexivity]
-                | right; right; right; left; split; [congruence | reflexivity]
-                | right; right; right; right; split; reflexivity ].
+  unfold ogone, gonef; intros s H. destruct (String.eqb (s_cur s) (w_self w)).
+  - apply gone_gone_at. exact H.
+  - unfold ogone_at. destruct (w_ovanish w (s_cur s)); [|discriminate].
+    apply Nat.ltb_lt in H. apply Nat.leb_le. lia.
 Qed.
 
-Theorem an_sound : forall p cx s sg s',
-  exec w p cx s = (sg, s') -> In (abs_sig sg, alpha s') (an opt p cx (alpha s)).
+(* one access *)
+Lemma acc_sound : forall l cx s sg s',
+  exec w (Acc l) cx s = (sg, s') ->
+  In (abs_sig sg, alpha s') (acc_who (l_who l) (opt l) (l_kind l) (alpha s)).
 Proof.
-  induction p; intros cx s sg s' H.
-  - simpl in H; inversion H; subst; simpl; auto.
-  - simpl in H; inversion H; subst; simpl; auto.
-  - simpl in H; inversion H; subst; simpl; auto.
-  - simpl in H; inversion H; subst; simpl; auto.
-  - apply (acc_sound l s sg s'). exact H.
+  intros l cx s sg s' H. simpl in H.
+  set (i := s_idx s) in *. set (cur := s_cur s) in *.
+  set (G' := gone_at w i). set (O' := gonef w i cur).
+  assert (A1 : forall d, alpha (set_data (tick s (l_kind l) (l_file l) cur) d) = (G', s_cache s, O')).
+  { intros. unfold alpha, ogone; unfold gone, G', O', gonef, gone_at, ogone_at. simpl. fold cur. fold i.
+    destruct (String.eqb cur (w_self w)); destruct (w_vanish w); destruct (w_ovanish w cur); reflexivity. }
+  assert (A2 : alpha (tick s (l_kind l) (l_file l) cur) = (G', s_cache s, O')).
+  { unfold alpha, ogone; unfold gone, G', O', gonef, gone_at, ogone_at. simpl. fold cur. fold i.
+    destruct (String.eqb cur (w_self w)); destruct (w_vanish w); destruct (w_ovanish w cur); reflexivity. }
+  assert (HG : In G' (gs (ag (alpha s)))).
+  { apply gs_spec. unfold alpha, ag. simpl. apply gone_gone_at. }
+  assert (HO : In O' (gs (ao (alpha s)))).
+  { apply gs_spec. unfold alpha, ao. simpl. apply ogone_gonef. }
+  assert (AC : ac (alpha s) = s_cache s) by reflexivity.
+  pose proof (Hb (gonef w i) l cur) as B.
+  unfold answer in H. unfold rwho in *.
+  (* the generic argument for a refusable, class-driven access whose failure is decided by [fb] *)
+  assert (GEN : forall fb x,
+            vanished w x cur i = failed fb G' O' ->
+            is_global x = false ->
+            ok_class (opt l) (w_base w (gonef w i) (l_kind l) x (l_file l) cur) = true ->
+            match (if vanished w x cur i then Err (vanish_errno (l_kind l))
+                   else if negb (is_global x) && w_deny w i then Err EACCES
+                   else w_base w (gonef w i) (l_kind l) x (l_file l) cur) with
+            | Ok d => (SNormal, set_data (tick s (l_kind l) (l_file l) cur) d)
+            | Err e => (SRaise (xc_of e), tick s (l_kind l) (l_file l) cur)
+            end = (sg, s') ->
+            In (abs_sig sg, alpha s') (acc_gen fb (live_sigs (opt l)) (l_kind l) (alpha s))).
+  { intros fb x Hv Hgl Hc Ha. rewrite Hgl in Ha. simpl in Ha.
+    destruct (vanished w x cur i) eqn:V.
+    - inversion Ha; subst. rewrite A2. rewrite <- AC.
+      apply acc_gen_in; [exact HG | exact HO | intros F; first [reflexivity | congruence | (simpl in F; discriminate)] | intros F; first [congruence | inl | exact Hc | discriminate]].
+    - destruct (w_deny w i).
+      + inversion Ha; subst. rewrite A2. rewrite <- AC.
+        apply acc_gen_in; [exact HG | exact HO | intros F; first [reflexivity | congruence | (simpl in F; discriminate)] | intros F; first [congruence | inl | exact Hc | discriminate]].
+      + apply class_sig in Hc.
+        destruct (w_base w (gonef w i) (l_kind l) x (l_file l) cur) as [d|e].
+        * inversion Ha; subst. rewrite A1. rewrite <- AC.
+          apply acc_gen_in; [exact HG | exact HO | intros F; first [reflexivity | congruence | (simpl in F; discriminate)] | intros F; first [congruence | inl | exact Hc | discriminate]].
+        * inversion Ha; subst. rewrite A2. rewrite <- AC.
+          apply acc_gen_in; [exact HG | exact HO | intros F; first [reflexivity | congruence | (simpl in F; discriminate)] | intros F; first [congruence | inl | exact Hc | discriminate]]. }
+  unfold acc_who.
+  destruct (l_who l) eqn:Hw.
+  - (* Self *) apply (GEN ByG Self); auto.
+  - (* Other *) apply (GEN ByO Other); auto.
+  - (* Global *)
+    simpl in H.
+    destruct (w_base w (gonef w i) (l_kind l) Global (l_file l) cur) as [d|e] eqn:Eb; [|discriminate].
+    inversion H; subst. rewrite A1. rewrite <- AC.
+    apply acc_gen_in; [exact HG | exact HO | intros F; first [reflexivity | congruence | (simpl in F; discriminate)] | intros F; first [congruence | inl | exact Hc | discriminate]].
+  - (* Any *)
+    destruct (String.eqb cur (w_self w)) eqn:E.
+    + apply (GEN ByO Self); auto. simpl. unfold O', gonef. rewrite E. reflexivity.
+    + apply (GEN ByO Other); auto.
+  - (* Ext *) apply (GEN ByNone Ext); auto.
+Qed.
+
+(* loops: any number of body runs, each started in a state of [reachS A] *)
+Definition loop_out (body : list astate -> ares) (A : list astate) : ares :=
+  dd (tag ANormal (reachS A) ++ filter nonnormal (body (reachS A))).
+Lemma loop_in_normal : forall body A a1, In a1 (reachS A) -> In (ANormal, a1) (loop_out body A).
+Proof. intros. unfold loop_out, dd. apply nodup_In. apply in_or_app. left. apply in_tag. auto. Qed.
+Lemma loop_in_body : forall body A r, In r (body (reachS A)) -> nonnormal r = true -> In r (loop_out body A).
+Proof. intros. unfold loop_out, dd. apply nodup_In. apply in_or_app. right. apply filter_In. auto. Qed.
+Lemma alpha_reach : forall A s0 s, In (alpha s0) A -> (gone w s0 = true -> gone w s = true) -> In (alpha s) (reachS A).
+Proof. intros A s0 s Hin H. eapply in_reachS; [exact Hin|]. apply reach_spec. exact H. Qed.
+
+Lemma an_try : forall b h e cx A,
+  an opt (Try b h e) cx A =
+  dd (filter isret (an opt b cx A) ++ an opt e cx (normals (an opt b cx A))
+      ++ flat_map (fun x => match raised x (an opt b cx A) with [] => [] | a0 :: S0 => an opt h x (a0 :: S0) end) all_xc).
+Proof. reflexivity. Qed.
+
+Theorem an_sound : forall p cx A s sg s',
+  In (alpha s) A -> exec w p cx s = (sg, s') -> In (abs_sig sg, alpha s') (an opt p cx A).
+Proof.
+  induction p; intros cx A s sg s' HA H.
+  - simpl in H; inversion H; subst; simpl; apply in_tag; auto.
+  - simpl in H; inversion H; subst; simpl; apply in_tag; auto.
+  - simpl in H; inversion H; subst; simpl; apply in_tag; auto.
+  - simpl in H; inversion H; subst; simpl; apply in_tag; auto.
+  - simpl. apply nodup_In. apply in_flat_map. exists (alpha s). split; auto.
+    apply (acc_sound l cx s sg s'). exact H.
   - (* Seq *)
-    simpl in H. destruct (exec w p1 cx s) as [sg1 s1] eqn:E1. apply IHp1 in E1.
-    simpl. apply nodup_In. apply in_flat_map. exists (abs_sig sg1, alpha s1). split; auto.
-    destruct sg1; simpl; [apply IHp2; auto | inversion H; subst; simpl; auto | inversion H; subst; simpl; auto].
+    simpl in H. destruct (exec w p1 cx s) as [sg1 s1] eqn:E1. apply (IHp1 cx A) in E1; auto.
+    simpl. apply nodup_In. apply in_or_app.
+    destruct sg1.
+    + right. eapply IHp2; [| exact H]. apply in_normals. exact E1.
+    + left. inversion H; subst. apply filter_In. split; auto.
+    + left. inversion H; subst. apply filter_In. split; auto.
   - (* If *)
     simpl in H.
     destruct t; simpl in H |- *;
       try (apply nodup_In; apply in_or_app;
            match type of H with (if ?c then _ else _) = _ => destruct c end; [left | right]; eauto).
     destruct (hmatch h cx); eauto.
-  - simpl in H; inversion H; subst; simpl; auto.
+  - simpl in H; inversion H; subst; simpl; apply in_tag; auto.
   - (* Try *)
-    simpl in H. destruct (exec w p1 cx s) as [sg1 s1] eqn:E1. apply IHp1 in E1.
-    simpl. apply nodup_In. apply in_flat_map. exists (abs_sig sg1, alpha s1). split; auto.
-    destruct sg1; simpl; [apply IHp3; auto | inversion H; subst; simpl; auto | apply IHp2; auto].
+    simpl in H. destruct (exec w p1 cx s) as [sg1 s1] eqn:E1. apply (IHp1 cx A) in E1; auto.
+    rewrite an_try. apply nodup_In. apply in_or_app.
+    destruct sg1.
+    + right. apply in_or_app. left. eapply IHp3; [| exact H]. apply in_normals. exact E1.
+    + left. inversion H; subst. apply filter_In. split; auto.
+    + right. apply in_or_app. right. apply in_flat_map. exists x. split; [apply all_xc_complete|].
+      pose proof (in_raised _ _ _ E1) as Hr.
+      destruct (raised x (an opt p1 cx A)) as [|a0 S0] eqn:ER; [destruct Hr|].
+      eapply IHp2; [| exact H]. exact Hr.
   - (* ForNames *)
-    simpl in H. simpl. apply nodup_In.
-    assert (L : forall ns s1, In (alpha s1) (reach (alpha s)) ->
+    simpl in H. simpl. change (In (abs_sig sg, alpha s') (loop_out (an opt p cx) A)).
+    assert (L : forall ns s1, (gone w s = true -> gone w s1 = true) ->
               iter_names (exec w p cx) ns s1 = (sg, s') ->
-              In (abs_sig sg, alpha s')
-                 (map (fun a1 => (ANormal, a1)) (reach (alpha s))
-                  ++ flat_map (fun a1 => filter nonnormal (an opt p cx a1)) (reach (alpha s)))).
+              In (abs_sig sg, alpha s') (loop_out (an opt p cx) A)).
     { induction ns as [|n r IH]; intros s1 Hin H1; simpl in H1.
-      - inversion H1; subst. apply in_or_app. left. apply in_map_iff. exists (alpha s'). auto.
+      - inversion H1; subst. apply loop_in_normal. eapply alpha_reach; eauto.
       - destruct (exec w p cx (set_cur s1 n)) as [sg1 s2] eqn:E.
         pose proof (exec_idx_le _ _ _ _ _ E) as Hle. simpl in Hle.
-        apply IHp in E. change (alpha (set_cur s1 n)) with (alpha s1) in E.
+        assert (R1 : In (alpha (set_cur s1 n)) (reachS A)) by (eapply alpha_reach; eauto).
+        apply (IHp cx (reachS A)) in E; auto.
         destruct sg1.
-        + apply (IH s2); auto. apply reach_spec. intros Hg.
-          apply reach_spec in Hin; [ | exact Hg ]. simpl in Hin |- *.
-          eapply gone_mono; [ | exact Hin]. exact Hle.
-        + inversion H1; subst. apply in_or_app. right. apply in_flat_map. exists (alpha s1). split; auto.
-          apply filter_In. split; auto.
-        + inversion H1; subst. apply in_or_app. right. apply in_flat_map. exists (alpha s1). split; auto.
-          apply filter_In. split; auto. }
-    apply (L (d_names (s_data s)) s); auto. apply reach_spec. auto.
+        + apply (IH s2); auto. intros Hg. eapply gone_mono; [exact Hle | auto].
+        + inversion H1; subst. eapply loop_in_body; eauto.
+        + inversion H1; subst. eapply loop_in_body; eauto. }
+    apply (L (d_names (s_data s)) s); auto.
   - (* Call *)
-    simpl in H. destruct (exec w p cx s) as [sg1 s1] eqn:E1. apply IHp in E1.
+    simpl in H. destruct (exec w p cx s) as [sg1 s1] eqn:E1. apply (IHp cx A) in E1; auto.
     simpl. apply in_map_iff. exists (abs_sig sg1, alpha s1). split; auto.
     destruct sg1; inversion H; subst; simpl; auto.
   - (* Memo *)
     simpl in H. simpl. apply in_or_app.
     destruct (s_cache s) eqn:Ec.
     + destruct (find_slot (s_slots s) n).
-      * left. inversion H; subst. unfold alpha. simpl. rewrite Ec. simpl. auto.
-      * right. destruct (exec w p cx s) as [sg1 s1] eqn:E1. apply IHp in E1.
+      * left. inversion H; subst. apply in_tag. apply filter_In. split.
+        -- assert (EA : alpha (set_data s d) = alpha s) by reflexivity. rewrite EA. exact HA.
+        -- unfold alpha, ac. simpl. exact Ec.
+      * right. destruct (exec w p cx s) as [sg1 s1] eqn:E1. apply (IHp cx A) in E1; auto.
         destruct sg1; destruct (s_cache s1) eqn:Ec1; inversion H; subst; auto.
-    + right. apply IHp; auto.
-  - simpl in H; inversion H; subst; simpl; auto.
-  - simpl in H; inversion H; subst; simpl; auto.
-  - simpl in H; inversion H; subst. simpl.
-    destruct (existsb (String.eqb (s_cur s)) (w_names w n)); left; reflexivity.
-  - simpl in H; inversion H; subst; simpl; auto.
+    + right. eapply IHp; eauto.
+  - simpl in H; inversion H; subst; simpl. apply in_map_iff. exists (alpha s). split; auto.
+  - simpl in H; inversion H; subst; simpl. apply in_map_iff. exists (alpha s). split; auto.
+  - simpl in H; inversion H; subst; simpl; apply in_tag; exact HA.
+  - simpl in H; inversion H; subst; simpl; apply in_tag; exact HA.
+  - (* FocusParent *)
+    simpl in H; inversion H; subst. simpl. apply in_flat_map. exists (alpha s). split; auto.
+    unfold alpha, ag, ac. simpl. destruct (ogone w (set_cur s (w_parent w))); inl.
+  - (* Walk *)
+    simpl in H. simpl. change (In (abs_sig sg, alpha s') (loop_out (an opt p cx) A)).
+    assert (V : forall ks stack s1 sg1 s2 st2, (gone w s = true -> gone w s1 = true) ->
+              visit (exec w p cx) F_PUSH ks stack s1 = (sg1, s2, st2) ->
+              (s_idx s1 <= s_idx s2)%nat /\
+              match sg1 with
+              | SNormal => True
+              | _ => In (abs_sig sg1, alpha s2) (loop_out (an opt p cx) A)
+              end).
+    { induction ks as [|k r IH]; intros stack s1 sg1 s2 st2 Hin H1; simpl in H1.
+      - inversion H1; subst. split; auto.
+      - destruct (exec w p cx (set_cur s1 k)) as [sg2 s3] eqn:E.
+        pose proof (exec_idx_le _ _ _ _ _ E) as Hle. simpl in Hle.
+        assert (R1 : In (alpha (set_cur s1 k)) (reachS A)) by (eapply alpha_reach; eauto).
+        apply (IHp cx (reachS A)) in E; auto.
+        destruct sg2.
+        + apply IH in H1; [| intros Hg; eapply gone_mono; [exact Hle | auto]].
+          destruct H1 as [Hl2 Hr]. split; [lia | exact Hr].
+        + inversion H1; subst. split; auto. eapply loop_in_body; eauto.
+        + inversion H1; subst. split; auto. eapply loop_in_body; eauto. }
+    assert (L : forall fuel stack seen s1, (gone w s = true -> gone w s1 = true) ->
+              walk (exec w p cx) F_PUSH (kids_of w (s_acc s)) fuel stack seen s1 = (sg, s') ->
+              In (abs_sig sg, alpha s') (loop_out (an opt p cx) A)).
+    { induction fuel as [|f IH]; intros stack seen s1 Hin H1; simpl in H1.
+      - inversion H1; subst. apply loop_in_normal. eapply alpha_reach; eauto.
+      - destruct stack as [|pid rest].
+        + inversion H1; subst. apply loop_in_normal. eapply alpha_reach; eauto.
+        + destruct (existsb (String.eqb pid) seen); [eapply IH; eauto|].
+          destruct (visit (exec w p cx) F_PUSH (kids_of w (s_acc s) pid) rest s1) as [[sg1 s2] st2] eqn:E.
+          apply V in E; auto. destruct E as [Hle Hr].
+          destruct sg1.
+          * eapply IH; [| exact H1]. intros Hg. eapply gone_mono; [exact Hle | auto].
+          * inversion H1; subst. exact Hr.
+          * inversion H1; subst. exact Hr. }
+    apply (L (S (List.length (s_acc s))) [w_self w] [] s); [auto | exact H].
 Qed.
 
 (* ---- the theorems about guarded scripts *)
-Lemma entry_cases : forall s, s_cache s = false -> alpha s = (false, false) \/ alpha s = (true, false).
-Proof. intros s Hc. unfold alpha. rewrite Hc. destruct (gone w s); auto. Qed.
+Lemma entry_in : forall s, s_cache s = false -> In (alpha s) entries.
+Proof. intros s Hc. unfold alpha, entries. rewrite Hc. destruct (gone w s), (ogone w s); inl. Qed.
+Lemma gone_entry_in : forall s, s_cache s = false -> gone w s = true -> In (alpha s) gone_entries.
+Proof. intros s Hc Hg. unfold alpha, gone_entries. rewrite Hc, Hg. destruct (ogone w s); inl. Qed.
+
+Lemma all_ends_sound : forall ok es p, all_ends ok es opt p = true ->
+  forall s, In (alpha s) es -> forall sg s', exec w p XPy s = (sg, s') -> ok (abs_sig sg, alpha s') = true.
+Proof.
+  intros ok es p Hg s Hin sg s' E. eapply an_sound in E; [| exact Hin].
+  unfold all_ends in Hg. eapply forallb_forall in Hg; eauto.
+Qed.
 
 Theorem well_guarded_sound_w : forall p, well_guarded opt p = true ->
   forall s, s_cache s = false -> allowed (fst (run w p s)) (gone w (snd (run w p s))).
 Proof.
   intros p Hg s Hc. unfold run.
-  destruct (exec w p XPy s) as [sg s'] eqn:E. apply an_sound in E.
-  unfold well_guarded in Hg. apply andb_true_iff in Hg. destruct Hg as [H0 H1].
-  assert (Ho : ok_end (abs_sig sg, alpha s') = true).
-  { destruct (entry_cases s Hc) as [Ha | Ha]; rewrite Ha in E;
-      [ eapply forallb_forall in H0; eauto | eapply forallb_forall in H1; eauto ]. }
-  destruct sg; simpl; auto.
-  unfold alpha in Ho. simpl in Ho.
-  destruct x; try discriminate; simpl; auto; destruct w0; try discriminate; auto.
-Qed.
-
-Theorem weakly_guarded_sound_w : forall p, weakly_guarded opt p = true ->
-  forall s, s_cache s = false -> allowed_weak (fst (run w p s)).
-Proof.
-  intros p Hg s Hc. unfold run.
-  destruct (exec w p XPy s) as [sg s'] eqn:E. apply an_sound in E.
-  unfold weakly_guarded in Hg. apply andb_true_iff in Hg. destruct Hg as [H0 H1].
-  assert (Ho : ok_end_weak (abs_sig sg, alpha s') = true).
-  { destruct (entry_cases s Hc) as [Ha | Ha]; rewrite Ha in E;
-      [ eapply forallb_forall in H0; eauto | eapply forallb_forall in H1; eauto ]. }
+  destruct (exec w p XPy s) as [sg s'] eqn:E.
+  pose proof (all_ends_sound _ _ _ Hg s (entry_in s Hc) _ _ E) as Ho.
   destruct sg; simpl; auto.
   unfold alpha in Ho. simpl in Ho.
   destruct x; try discriminate; simpl; auto; destruct w0; try discriminate; auto.
@@ -258,24 +368,41 @@ Theorem tree_guarded_sound_w : forall p, tree_guarded opt p = true ->
   forall s, s_cache s = false -> allowed_tree (fst (run w p s)) (gone w (snd (run w p s))).
 Proof.
   intros p Hg s Hc. unfold run.
-  destruct (exec w p XPy s) as [sg s'] eqn:E. apply an_sound in E.
-  unfold tree_guarded in Hg. apply andb_true_iff in Hg. destruct Hg as [H0 H1].
-  assert (Ho : ok_end_tree (abs_sig sg, alpha s') = true).
-  { destruct (entry_cases s Hc) as [Ha | Ha]; rewrite Ha in E;
-      [ eapply forallb_forall in H0; eauto | eapply forallb_forall in H1; eauto ]. }
+  destruct (exec w p XPy s) as [sg s'] eqn:E.
+  pose proof (all_ends_sound _ _ _ Hg s (entry_in s Hc) _ _ E) as Ho.
   destruct sg; simpl; auto.
   unfold alpha in Ho. simpl in Ho.
   destruct x; try discriminate; simpl; auto; destruct w0; try discriminate; simpl; auto.
+Qed.
+
+Theorem wait_guarded_sound_w : forall p, wait_guarded opt p = true ->
+  forall s, s_cache s = false -> allowed_wait (fst (run w p s)) (gone w (snd (run w p s))).
+Proof.
+  intros p Hg s Hc. unfold run.
+  destruct (exec w p XPy s) as [sg s'] eqn:E.
+  pose proof (all_ends_sound _ _ _ Hg s (entry_in s Hc) _ _ E) as Ho.
+  destruct sg; simpl; auto.
+  unfold alpha in Ho. simpl in Ho.
+  destruct x; try discriminate; simpl; auto; try (destruct w0; try discriminate; auto).
+  unfold ag in Ho. simpl in Ho. destruct (gone w s'); auto; discriminate.
 Qed.
 
 Theorem gone_guarded_sound_w : forall p, gone_guarded opt p = true ->
   forall s, s_cache s = false -> gone w s = true -> fst (run w p s) = RExc (XNSP Self).
 Proof.
   intros p Hg s Hc Hgone. unfold run.
-  destruct (exec w p XPy s) as [sg s'] eqn:E. apply an_sound in E.
-  unfold alpha at 2 in E. rewrite Hc, Hgone in E.
-  unfold gone_guarded in Hg. eapply forallb_forall in Hg; eauto.
-  destruct sg; simpl in Hg; try discriminate.
+  destruct (exec w p XPy s) as [sg s'] eqn:E.
+  pose proof (all_ends_sound _ _ _ Hg s (gone_entry_in s Hc Hgone) _ _ E) as Ho.
+  destruct sg; simpl in Ho; try discriminate.
   destruct x; try discriminate. destruct w0; try discriminate. reflexivity.
+Qed.
+
+Theorem gone_value_sound_w : forall p, gone_value opt p = true ->
+  forall s, s_cache s = false -> gone w s = true -> fst (run w p s) = RVal.
+Proof.
+  intros p Hg s Hc Hgone. unfold run.
+  destruct (exec w p XPy s) as [sg s'] eqn:E.
+  pose proof (all_ends_sound _ _ _ Hg s (gone_entry_in s Hc Hgone) _ _ E) as Ho.
+  destruct sg; simpl in Ho; try discriminate; reflexivity.
 Qed.
 End Sound.
